@@ -234,6 +234,89 @@ fn observe(problem: &Problem, ctx: &InsertionContext) -> Value {
     })
 }
 
+// ---- hook H2: the context right after every single insertion (C05 "after every single insertion during construction") ----
+#[derive(Default, Clone)]
+struct InsStats {
+    n: usize,
+    route_stale: usize,
+    scalar_stale: usize,
+    sol_stale: usize,
+    skipped: usize,
+    example: String,
+}
+
+thread_local! {
+    static INS: std::cell::RefCell<Option<InsStats>> = const { std::cell::RefCell::new(None) };
+}
+
+/// Runs `f` with the insertion observer collecting on this thread (insertions made on other threads are not observed).
+fn watch_insertions<T>(f: impl FnOnce() -> T) -> (T, InsStats) {
+    INS.with(|c| *c.borrow_mut() = Some(InsStats::default()));
+    let r = f();
+    let st = INS.with(|c| c.borrow_mut().take()).unwrap_or_default();
+    (r, st)
+}
+
+fn containers_of(c: &InsertionContext) -> (Vec<String>, Vec<String>, Vec<String>) {
+    let mut r: Vec<String> = c.solution.required.iter().map(jid).collect();
+    let mut i: Vec<String> = c.solution.ignored.iter().map(jid).collect();
+    let mut u: Vec<String> = c.solution.unassigned.keys().map(jid).collect();
+    r.sort();
+    i.sort();
+    u.sort();
+    (r, i, u)
+}
+
+fn after_insertion(ctx: &InsertionContext) {
+    let collecting = INS.with(|c| c.borrow().is_some());
+    if !collecting {
+        return;
+    }
+    let checked = catch(|| {
+        let d1 = cache_lines(ctx);
+        let rec = recompute(ctx);
+        let d2 = cache_lines(&rec);
+        // judged only when the recomputation does not edit tours or job containers (mid-construction it may, e.g. conditional jobs)
+        let fix = tours_only(ctx) == tours_only(&rec) && containers_of(ctx) == containers_of(&rec);
+        (d1, d2, fix)
+    });
+    INS.with(|c| {
+        let mut guard = c.borrow_mut();
+        let Some(st) = guard.as_mut() else { return };
+        st.n += 1;
+        match checked {
+            Ok((d1, d2, true)) => {
+                let only = |a: &Vec<String>, b: &Vec<String>| -> Vec<String> { a.iter().filter(|l| !b.contains(l)).cloned().collect() };
+                let (x, y) = (only(&d1, &d2), only(&d2, &d1));
+                // route level: scalar values (counters, sets, sums kept per tour) apart from the vectors feasibility is decided on
+                // (activity schedules, latest arrivals, waiting, load profiles, reload intervals)
+                let is_scalar = |l: &&String| [" state f:", " state u:", " state s:", " state hs:"].iter().any(|p| l.contains(p));
+                let route_all: Vec<&String> = x.iter().chain(y.iter()).filter(|l| !l.starts_with("solution state")).collect();
+                let route_diff: Vec<&String> = route_all.iter().filter(|l| !is_scalar(l)).cloned().collect();
+                let scalar_diff: Vec<&String> = route_all.iter().filter(|l| is_scalar(l)).cloned().collect();
+                let sol_diff: Vec<&String> = x.iter().chain(y.iter()).filter(|l| l.starts_with("solution state")).collect();
+                if !route_diff.is_empty() {
+                    st.route_stale += 1;
+                }
+                if !scalar_diff.is_empty() {
+                    st.scalar_stale += 1;
+                }
+                if !sol_diff.is_empty() {
+                    st.sol_stale += 1;
+                }
+                if (st.example.is_empty() || (!route_diff.is_empty() && !st.example.starts_with("VECTOR"))) && (!route_diff.is_empty() || !scalar_diff.is_empty() || !sol_diff.is_empty()) {
+                    st.example = format!("{}insertion #{}: cached {:?} recomputed {:?}", if route_diff.is_empty() { "" } else { "VECTOR " }, st.n, x.iter().take(3).collect::<Vec<_>>(), y.iter().take(3).collect::<Vec<_>>());
+                }
+            }
+            _ => st.skipped += 1,
+        }
+    });
+}
+
+fn ins_json(st: &InsStats) -> Value {
+    json!({"n": st.n, "routeStale": st.route_stale, "scalarStale": st.scalar_stale, "solStale": st.sol_stale, "skipped": st.skipped, "example": st.example})
+}
+
 struct Toolbox {
     ruins: Vec<(&'static str, Arc<dyn Ruin>)>,
     recreates: Vec<(&'static str, Arc<dyn Recreate>)>,
@@ -336,11 +419,14 @@ fn run_case(case: &Value, out: &mut NdjsonWriter) {
     let mut rctx = RefinementContext::new(problem.clone(), population, TelemetryMode::None, env.clone());
     let tb = toolbox(problem.clone(), env.clone());
 
+    let pending_ins: std::cell::RefCell<InsStats> = Default::default();
     let emit = |out: &mut NdjsonWriter, step: i64, op: &str, kind: &str, main: bool, ctx: &InsertionContext, pb: &str, pa: &str| {
         let mut v = match catch(|| observe(problem.as_ref(), ctx)) {
             Ok(v) => v,
             Err(p) => json!({"observePanic": p}),
         };
+        // insertions observed while this state was built (construction and recreate side branches only)
+        v["ins"] = ins_json(&pending_ins.replace(InsStats::default()));
         v["case"] = json!(id);
         v["step"] = json!(step);
         v["op"] = json!(op);
@@ -354,8 +440,11 @@ fn run_case(case: &Value, out: &mut NdjsonWriter) {
     // s0: construction by a random recreate from the empty context
     let (cn, c0) = &tb.recreates[rnd.below(tb.recreates.len())];
     let start = InsertionContext::new(problem.clone(), env.clone());
-    let mut cur = match catch(|| RuinAndRecreate::new(Arc::new(CompositeRuin::new(vec![])), c0.clone()).search(&rctx, &start)) {
-        Ok(c) => c,
+    let mut cur = match catch(|| watch_insertions(|| RuinAndRecreate::new(Arc::new(CompositeRuin::new(vec![])), c0.clone()).search(&rctx, &start))) {
+        Ok((c, st)) => {
+            pending_ins.replace(st);
+            c
+        }
         Err(p) => {
             out.write(&json!({"case": id, "step": 0, "op": format!("init:{cn}"), "panic": p}));
             return;
@@ -383,13 +472,14 @@ fn run_case(case: &Value, out: &mut NdjsonWriter) {
                 let side = catch(|| {
                     let a = ruin.run(&rctx, cur.deep_copy());
                     let a_copy = a.deep_copy();
-                    let b = rec.run(&rctx, a);
-                    (a_copy, b)
+                    let (b, st) = watch_insertions(|| rec.run(&rctx, a));
+                    (a_copy, b, st)
                 });
                 let after = full_digest(&cur);
                 match side {
-                    Ok((a, b)) => {
+                    Ok((a, b, st)) => {
                         emit(out, step, &format!("ruin:{rn}"), "ruin", false, &a, &before, &after);
+                        pending_ins.replace(st);
                         emit(out, step, &format!("recreate:{cn}"), "recreate", false, &b, &before, &after);
                     }
                     Err(p) => out.write(&json!({"case": id, "step": step, "op": format!("ruin:{rn}+recreate:{cn}"), "panic": p})),
@@ -446,6 +536,7 @@ fn run_case(case: &Value, out: &mut NdjsonWriter) {
 
 fn main() {
     quiet_panics();
+    verif_insertion::set_observer(Some(Arc::new(|ctx: &InsertionContext, _route_index: usize| after_insertion(ctx))));
     let cases = read_ndjson(&arg_req("--in"));
     let out_path = arg_req("--out");
     let jobs: usize = arg_or("--jobs", "4").parse().unwrap();
